@@ -31,15 +31,11 @@ NP(id, m, p, pre, ser) == O(id, m, p, "-", "-", << >>, "none", << >>, pre, "none
 
 QuickOps == {
   PA("A:pc,help",         "A", DefKW, <<"pc", "help">>, "none", << >>),
-  PA("A:b/ok",            "A", DefKW, << >>, "b", <<"ok">>),
   PO("A:str",             "parse_string", "A", "ok", "none", "none", "ok"),
   PO("A:env",             "parse_env", "A", "ok", "none", "none", "ok"),
   NP("A:defaults",        "get_defaults", "A", "ok", FALSE),
   NP("A:instantiate",     "instantiate_classes", "A", "ok", FALSE),
   PA("A:bad,pc",          "A", DefKW, <<"bad", "pc">>, "none", << >>),
-  PA("A:a/bad",           "A", DefKW, << >>, "a", <<"bad">>),
-  PA("A:a/pc",            "A", DefKW, << >>, "a", <<"pc">>),
-  PA("A:ok|nodef",        "A", NoDefKW, <<"ok">>, "none", << >>),
   PO("A:obj-bad",         "parse_object", "A", "fail", "none", "none", "ok"),
   PA("A:unk",             "A", DefKW, <<"unk">>, "none", << >>),
   PA("A:pc,cfg",          "A", DefKW, <<"pc", "cfg">>, "none", << >>),
@@ -77,6 +73,10 @@ QuickOps == {
   PA("B:pc,bad",          "B", DefKW, <<"pc", "bad">>, "none", << >>)
 }
 MoreOps == {
+  PA("A:b/ok",            "A", DefKW, << >>, "b", <<"ok">>),
+  PA("A:a/bad",           "A", DefKW, << >>, "a", <<"bad">>),
+  PA("A:a/pc",            "A", DefKW, << >>, "a", <<"pc">>),
+  PA("A:ok|nodef",        "A", NoDefKW, <<"ok">>, "none", << >>),
   PA("A:ncls",            "A", DefKW, <<"ncls">>, "none", << >>),
   PA("A:pc,unk",          "A", DefKW, <<"pc", "unk">>, "none", << >>),
   PA("A:pcflag",          "A", DefKW, <<"pcflag">>, "none", << >>),
